@@ -59,10 +59,10 @@ def beyondScalar (d : α) : α × α × α := (0, d, 0)
 end
 
 /-- whether `ApparentlyFacing.helper` computes the line of sight in the parent frame -/
-def apparentlyFacingUsesParent : Bool := false
+def apparentlyFacingUsesParent : Bool := true
 /-- whether `Beyond` tests `isA(fromPt, OrientedPoint)` before coercing `fromPt` to a vector
     (only then can the orientation of an oriented `from` argument be inherited) -/
-def beyondInheritsFromOrientation : Bool := false
+def beyondInheritsFromOrientation : Bool := true
 /-- `Object.corners`: signs of `(hw, hl, hh)`, in source order -/
 def cornerTable : List (Int × Int × Int) := [(1, 1, 1), ((-1), 1, 1), ((-1), (-1), 1), (1, (-1), 1), (1, 1, (-1)), ((-1), 1, (-1)), ((-1), (-1), (-1)), (1, (-1), (-1))]
 /-- `Object.left … bottomBackRight`: signs of `(hw, hl, hh)` passed to `relativize` -/
